@@ -58,7 +58,7 @@ class Renamer(ast.NodeTransformer):
 
 
 def main():
-    prog = Program("/repo")
+    prog = Program("/repo", inline=False)
     overlays = {}
     for rel, src in prog.files.items():
         try:
